@@ -131,6 +131,23 @@ def run(shard, ctx):
                     del held[:]
                     break
             ctx.count("earlier_results_rechecked", len(held))
+            if TICK[0] % 3 == 0 and not garbage:
+                # the caller works on what he got (edits values in place, empties lists): the same response decoded again -- a device
+                # polled twice gives the same bytes -- is decoded to what the device sent, not to the caller's edits
+                from vmon.props.c06 import scribble_all
+
+                try:
+                    twin = f.lib_decode(bytearray(b), v, 0)
+                    scribble_all(twin)
+                    if isinstance(twin, dict):
+                        for x in twin.values():
+                            if isinstance(x, list):
+                                del x[:]
+                    res2 = f.lib_decode(bytearray(b), v, 0)
+                    ctx.count("decoded_again_after_caller_edited_result")
+                    judge(ctx, f, "direct, after the caller edited an earlier result of the same response", v, b, res2, wit)
+                except Exception as e:  # noqa: BLE001
+                    ctx.fail("C04:%s.raises.%s" % (f.name, type(e).__name__), "%s: decoding the same response again raised %s: %s" % (f.name, type(e).__name__, e), wit, exc=e)
             held.append((res, repr(res)))
             if len(held) > 3:
                 held.pop(0)
